@@ -303,6 +303,10 @@ class Unit:
         if exprs:
             t, n = R.r23_hashmap_into_iter(t, exprs)
             self._count("R23", n)
+        exprs = it.opts.get("hashset_into_iter", [])
+        if exprs:
+            t, n = R.r23_hashset_into_iter(t, exprs)
+            self._count("R23", n)
         aw = it.opts.get("await_erase", self.cfg.get("await_erase"))
         if aw:
             t, n = R.r9_await_erasure(t, aw, mark=bool(it.opts.get("await_marks", self.cfg.get("await_marks", False))))
